@@ -45,6 +45,7 @@ type Exec struct {
 	inlineDepth  int
 	inlinedFuncs []string
 	bePaths      []*bePath
+	anonGoroutines []string
 }
 
 func (x *Exec) info() *types.Info { return x.fn.pkg.TypesInfo }
